@@ -86,7 +86,10 @@ func NewWorld(s *vsched.Sched, opts ...jsonrpc.ServerOption) *World {
 		},
 	})
 	vnet.WriterInfo = func() (string, []uintptr) {
-		h := s.Held()
+		// Locks held by ANY goroutine at the time of the write: the library hands its write lock
+		// over between goroutines (lazyWriter's helper goroutine holds writeLk while the handler
+		// goroutine writes), so ownership by the writing goroutine itself would be too strict.
+		h := s.AllHeld()
 		out := make([]uintptr, len(h))
 		for i, p := range h {
 			out[i] = uintptr(unsafe.Pointer(p))
